@@ -14,6 +14,7 @@ import FontVerif.Lemmas.Cmap4Iter
 import FontVerif.Lemmas.CmapNorm
 import FontVerif.Lemmas.CmapTop
 import FontVerif.Lemmas.Cmap14
+import FontVerif.Lemmas.CmapSel
 set_option linter.unusedVariables false
 namespace FontVerif.C08
 open FontVerif FontVerif.Cmap
@@ -321,6 +322,49 @@ theorem cmap14_iter_agrees (t : List VarSel) (hw : Wf14 t) (c sel : Nat) (v : Ma
 example : Wf14 [⟨0xFE00, some [(0x20, 3), (0x4E00, 0)], some [(0x21, 7), (0x30, 9)]⟩,
                 ⟨0xFE01, none, some [(0x41, 5)]⟩] :=
   ⟨by decide, by decide, by decide⟩
+
+/-! ### skrifa subtable selection -/
+
+/-- `MappingSelection::new`, for EVERY list of encoding records: the selected codepoint subtable is
+a supported (format 4 / 12) candidate of the greatest `MappingKind` present — symbol (3) over
+full repertoire (2) over BMP (1), `recKind` — and among those the LAST record of the table; nothing
+is selected exactly when there is no candidate; the symbol flag is set exactly for a symbol pick. -/
+theorem charmap_selection (recs : List Record) :
+    (∀ j (hj : j < recs.length), recKind recs[j] ≤ (select recs).kind) ∧
+    ((select recs).codepointIx = none ↔ ∀ j (hj : j < recs.length), recKind recs[j] = 0) ∧
+    (∀ i, (select recs).codepointIx = some i → ∃ hi : i < recs.length,
+      recKind recs[i] = (select recs).kind ∧ 0 < recKind recs[i] ∧
+      ∀ j (hj : j < recs.length), i < j → recKind recs[j] < recKind recs[i]) ∧
+    ((select recs).isSymbol = ((select recs).kind == 3)) := by
+  have h : SelSpec recs 0 (select recs) := selectGo_spec recs 0
+  refine ⟨h.maxKind, ?_, ?_, h.symbol⟩
+  · rw [h.noneIff]
+    constructor
+    · intro hk j hj
+      have := h.maxKind j hj
+      omega
+    · intro hall
+      cases hc : (select recs).codepointIx with
+      | none => exact h.noneIff.1 hc
+      | some i =>
+        obtain ⟨k, hk, _, h2, _⟩ := h.chosen i hc
+        have := hall k hk
+        omega
+  · intro i hi
+    obtain ⟨k, hk, h1, h2, h3⟩ := h.chosen i hi
+    have hik : i = k := by omega
+    subst hik
+    have hpos : (select recs).kind ≠ 0 := fun h0 => by
+      have := h.noneIff.2 h0
+      rw [hi] at this; cases this
+    refine ⟨hk, h2, by omega, fun j hj hij => ?_⟩
+    have := h3 j hj hij
+    omega
+
+example : select [(0, 3, .f4), (0, 4, .f12), (3, 1, .f4), (3, 10, .f12)] =
+    { kind := 2, codepointIx := some 3, isSymbol := false, variantIx := none } := by decide
+example : select [(3, 0, .f4), (0, 4, .f12), (0, 5, .f14), (1, 0, .unsupported)] =
+    { kind := 3, codepointIx := some 0, isSymbol := true, variantIx := some 2 } := by decide
 
 /-! ### readers alone: iterator and lookup agree on every well-formed subtable -/
 
